@@ -1929,7 +1929,9 @@ func (schema *Schema) visitJSONObject(settings *schemaValidationSettings, value 
 
 			if f := settings.defaultsSet; f != nil && value[propName] == nil {
 				if dflt := propSchema.Value.Default; dflt != nil && !reqRO && !repWO {
-					value[propName] = dflt
+					// the default belongs to the (shared) document: nested defaults are
+					// injected into the value below, so hand out a copy
+					value[propName] = deepcopy.Copy(dflt)
 					settings.onceSettingDefaults.Do(f)
 				}
 			}
